@@ -534,3 +534,49 @@ Lemma proppatch_example_agrees :
   st (D.serve [] None proppatch_req) = 403 /\
   ServerTotal.serve (CDav (local_env [] None proppatch_req) proppatch_req') = Resp 403 [].
 Proof. split; vm_compute; reflexivity. Qed.
+
+(** ** a Destination that parses but has no path (http://host, //host, ?q, #f, mailto:a@b)
+
+    internal/server.go hands [dest.Path = ""] to the backend without looking at it; the
+    handler model does the same ([r_dest = DPath ""], the call is recorded with an empty
+    destination), so what happens is the FileSystem's answer.  LocalFileSystem refuses it
+    (localPath: the cleaned name is not absolute): 400, nothing changes. *)
+Lemma segs_of_empty : exists e, D.segs_of "" = D.GErr e /\ D.ecode e = 400.
+Proof. eexists. split; reflexivity. Qed.
+
+Lemma checks_empty_dest root sb src ow e :
+  D.copy_move_checks root sb src "" ow = D.GErr e -> D.ecode e = 400.
+Proof.
+  unfold D.copy_move_checks. destruct (D.segs_of src) as [ss|e0] eqn:S.
+  - simpl. intros H; inversion H; reflexivity.
+  - intros H; inversion H; subst. eapply segs_code; eauto.
+Qed.
+
+Lemma checks_empty_dest_err root sb src ow : exists e, D.copy_move_checks root sb src "" ow = D.GErr e.
+Proof. unfold D.copy_move_checks. destruct (D.segs_of src); simpl; eauto. Qed.
+
+Lemma empty_dest_400 root sb r :
+  D.h_dest r = D.DestPath "" -> st (D.do_copy_move root sb r) = 400 /\ fst (D.do_copy_move root sb r) = sb.
+Proof.
+  intros HD. unfold D.do_copy_move. rewrite HD.
+  destruct (if String.eqb (D.h_overwrite r) "" then _ else _) as [ow|]; [|simpl; auto].
+  destruct (if String.eqb (D.h_depth r) "" then _ else _) as [d|]; [|simpl; auto].
+  destruct (String.eqb (D.meth r) "COPY").
+  - destruct (d =? 1); [simpl; auto|]. unfold D.do_copy.
+    destruct (checks_empty_dest_err root sb (D.rpath r) ow) as (e & E). rewrite E. unfold st, D.err_resp. simpl.
+    rewrite (checks_empty_dest _ _ _ _ _ E). auto.
+  - destruct (negb (d =? 2)); [simpl; auto|]. unfold D.do_move.
+    destruct (checks_empty_dest_err root sb (D.rpath r) ow) as (e & E). rewrite E. unfold st, D.err_resp. simpl.
+    rewrite (checks_empty_dest _ _ _ _ _ E). auto.
+Qed.
+
+Theorem empty_destination_path_file_server root sb r r' :
+  req_match r r' -> D.meth r = "COPY" \/ D.meth r = "MOVE" -> D.h_dest r = D.DestPath "" ->
+  exists cs, ServerTotal.serve (CDav (local_env root sb r) r') = Resp 400 cs /\ fst (D.serve root sb r) = sb.
+Proof.
+  intros M E HD. destruct (agrees_with_file_server_model root sb r r' M) as (cs & A & _ & _).
+  assert (S : D.serve root sb r = D.do_copy_move root sb r).
+  { unfold D.serve. destruct E as [E|E]; rewrite E; reflexivity. }
+  rewrite S in A. destruct (empty_dest_400 root sb r HD) as [C U]. rewrite C in A.
+  exists cs. rewrite S. auto.
+Qed.
